@@ -13,13 +13,14 @@ Import ListNotations.
 
 Inductive obs :=
 | OSubmit (it : item)
+| ORefused (it : item)            (* the call returned a failure status with an error: not queued *)
 | OAppear (r : N)
 | OConn (r : N) (ok : bool)
 | ODelete (r x b : N) (single ok : bool) (rmd : list item)
 | OPrepFail (r : N)
 | OUnknownStmt (r : N).
 
-Inductive sitem := SAcc (it : item) | SApp (r : N) | SAuto (n : nat).
+Inductive sitem := SAcc (it : item) | SRef (it : item) | SApp (r : N) | SAuto (n : nat).
 
 Record wcase := mkCase {
   wc_cfg : cfg;
@@ -31,7 +32,7 @@ Record wcase := mkCase {
   wc_cmp_sim : bool;                 (* compare with the model's final state *)
   wc_trace : list obs;
   wc_final : list item;
-  wc_status : list N                 (* status of every BranchCommit call that returned *)
+  wc_status : list (N * bool)        (* every BranchCommit call that returned: status, error present *)
 }.
 
 (* ---- multiset equality of item lists *)
@@ -54,6 +55,9 @@ Definition has_pending_on (r : N) (a : ast) : bool := existsb (fun it => N.eqb (
 Definition astep (a : ast) (o : obs) : ast :=
   match o with
   | OSubmit it => mkA (it :: a_pend a) (a_tab a) (a_known a) (a_err a)
+  | ORefused it =>
+      if existsb (item_eqb it) (a_pend a)
+      then mkA (remove1 it (a_pend a)) (a_tab a) (a_known a) (a_err a) else err 11 a
   | OAppear r => mkA (a_pend a) (a_tab a) (r :: a_known a) (a_err a)
   | OConn r _ | OPrepFail r =>
       if memN r (a_known a) && has_pending_on r a then a else err 5 a
@@ -115,6 +119,7 @@ Fixpoint accept_wait (c : cfg) (fuel : nat) (it : item) (st : simst) : simst :=
 Definition sim_item (c : cfg) (st : simst) (x : sitem) : simst :=
   match x with
   | SAcc it => accept_wait c 200 it st
+  | SRef it => mkSim (step c (Refuse it) (ss st)) (scf st) (sdf st)
   | SApp r => mkSim (step c (Appear r) (ss st)) (scf st) (sdf st)
   | SAuto n => auto c n st
   end.
@@ -124,22 +129,26 @@ Definition simulate (w : wcase) : state :=
                 (mkSim (init (wc_t0 w) (wc_k0 w)) (wc_cf w) (wc_df w))).
 
 (* ---- disagreement codes
-   1 a call was not answered PhasetwoCommitted        2 DELETE of a pair no pending request has
+   1 an answer is neither Committed-without-error nor a refusal (other status with an error)
+   11 a refusal of a request that was not submitted
+   (1 was: a call was not answered PhasetwoCommitted)       2 DELETE of a pair no pending request has
    3 final table differs from the model's              4 requests still pending differ from the model's
    5 Connect/DELETE on an unregistered resource or without a pending request for it
    6 a DELETE removed other rows than those equal to its pair
    7 a DELETE that is not a single (xid, branch) pair  8 final table differs from the replayed trace
-   9 a statement the undo-log manager does not have   10 the model's answers are not all Committed *)
+   9 a statement the undo-log manager does not have   10 the model's answers differ (Committed = queued; one answer per returned call) *)
 Definition check_case (w : wcase) : list N :=
   let a := fold_left astep (wc_trace w) (mkA [] (wc_t0 w) (wc_k0 w) []) in
   let m := simulate w in
   rev (a_err a)
-  ++ (if forallb (N.eqb st_committed) (wc_status w) then [] else [1%N])
+  ++ (if forallb (fun p : N * bool => if snd p then negb (N.eqb (fst p) st_committed) else N.eqb (fst p) st_committed)
+                 (wc_status w) then [] else [1%N])
   ++ (if meq (wc_final w) (a_tab a) then [] else [8%N])
   ++ (if wc_cmp_sim w
       then (if meq (wc_final w) (table m) then [] else [3%N])
            ++ (if meq (a_pend a) (pend m ++ dropped m) then [] else [4%N])
-           ++ (if forallb (fun p => N.eqb (snd p) st_committed) (answers m) then [] else [10%N])
+           ++ (if meq (committed_of (answers m)) (accepted m)
+                  && (length (answers m) =? length (wc_status w)) then [] else [10%N])
       else []).
 
 Fixpoint mism_from (i : nat) (ws : list wcase) : list (nat * N) :=
